@@ -86,6 +86,21 @@ class P:
                 seq[-1] = seq[-1][:-1]
             hcases.append(",".join(hx(t) for t in seq))
 
+        # delimiter words holding expansions (the lexer compares delimiter lines in printed form: every spelling the printer
+        # has for an expansion must come back as it was written); body lines spelled like the sibling notations must not end the body
+        EXP = ["${x#}", "${x%}", "${x##}", "${x%%}", "${#x}", "$x", "${x:-y}", "${x#y}", "${x:-}", "${x-}", "${x:+}", "${x=}", "${x?}", "$(a)", "`a`", "$((1))", "${#}", "${##}", "$#"]
+        for d in EXP:
+            for sib in EXP:
+                if sib == d:
+                    continue
+                for op, line in (('"%s"' % d, d), ("'%s'" % d, d), ("E" + d, "E" + d), ('E"%s"' % d, "E" + d)):
+                    sl = sib if line == d else "E" + sib
+                    if "`" in sl and op[0] not in "\"'":
+                        continue      # (an unquoted body scans the backquotes of the sibling line: keep those bodies plain)
+                    for dash in ("<<", "<<-"):
+                        t = "cat %s%s\n%s\nx\n%s\n" % (dash, op, sl, line)
+                        hcases.append(",".join(hx(z) for z in (t, "echo next\n")))
+
         def impl_ok(c, o):
             return o.startswith(("ok", "skip"))
         # (these lines are complete commands by construction: one that is rejected on its own is a failure, not a skip)
